@@ -107,7 +107,28 @@ func (r Rng) smallShift() int64 {
 	}
 }
 
+// driveTwinNeighbours: neighbourhood queries whose RESULTS contain two IDs that collide under a common
+// string hash (32-bit twins from the birthday search, one known 64-bit twin)
+func driveTwinNeighbours(t *Tracer, r Rng) {
+	_, ext := hashTwins()
+	w := Win{Abs: true}
+	for i, te := range ext {
+		if i%3 != 0 && i != len(ext)-1 {
+			continue
+		}
+		wa, wb := te.A, te.B
+		wa.X--
+		wb.X--
+		evNLayer(t, w, []ID{wa, wb}, 1, 0)
+		evNLayer(t, w, []ID{wb, wa}, 1, 1)
+		evNLayer(t, w, []ID{te.A, te.B}, 0, 1)
+	}
+}
+
 func driveShift(t *Tracer, r Rng, n int) {
+	if n >= 100 {
+		driveTwinNeighbours(t, r)
+	}
 	for i := 0; i < n; i++ {
 		hD, vD := r.In(0, 6), r.In(0, 6)
 		if r.Chance(0.4) {
